@@ -258,11 +258,12 @@ func vfAtEnd(prop, part string) {
 	menu := []vfAclOp{
 		{Kind: "sub", Actor: 2, Mode: ""}, {Kind: "setpriv", Actor: 2}, {Kind: "setself", Actor: 2, Mode: "JRW"}, {Kind: "unsub", Actor: 2},
 		{Kind: "setother", Actor: 1, Target: 2, Mode: "JRWPA"}, {Kind: "setpub", Actor: 0}, {Kind: "leave", Actor: 1},
+		{Kind: "subme", Actor: 2}, // deluser only: the account's own {sub me} while it is being deleted
 	}
 	nb := 0
 	for _, what := range []string{"unload", "delete", "deluser"} {
 		for _, op := range menu {
-			if what == "unload" && op.Kind == "leave" {
+			if what == "unload" && op.Kind == "leave" || (op.Kind == "subme") != (what == "deluser" && op.Kind == "subme") {
 				continue
 			}
 			events := 0
@@ -280,7 +281,9 @@ func vfAtEnd(prop, part string) {
 					t := vfBuildTW(vfTWOpts{Users: 5, Root: true, PreSub: []int{1, 2}, Admin: []int{1}})
 					if what == "deluser" {
 						// u2 stays attached to the group and to its 'me' topic while root deletes the account
-						t.cl[2].Req(`{"sub":{"id":"$ID","topic":"me"}}`)
+						if op.Kind != "subme" {
+							t.cl[2].Req(`{"sub":{"id":"$ID","topic":"me"}}`)
+						}
 					} else if what == "unload" {
 						for _, c := range t.cl {
 							if c.sess != nil && c.sess.getSub(t.grp) != nil {
@@ -295,6 +298,9 @@ func vfAtEnd(prop, part string) {
 						c.Take()
 					}
 					req, c := t.aclRequest(op)
+					if op.Kind == "subme" {
+						req, c = `{"sub":{"id":"$ID","topic":"me"}}`, t.cl[2]
+					}
 					n := 0
 					prev := memdb.OnCall
 					opID := ""
